@@ -39,93 +39,15 @@ def names_in(e):
 
 def run(repo, res):
     assist = repo.module_func(ASSIST, 'assist')
-    ex = Expander(assist, stop=('line', 'source', 'position'))
-    rets = [r for r in ast.walk(assist) if isinstance(r, ast.Return)]
-    res.count('assist_returns', len(rets), floor=3)
-    line_def = [n for n in ast.walk(assist) if isinstance(n, ast.Assign) and unparse(n.targets[0]) == 'line']
-    ok = len(line_def) == 1 and unparse(line_def[0].value) in ('source.lines[ln - 1][:col]',)
-    res.check('C12-R1', 'text left of the cursor', ok, ASSIST, assist.lineno,
-              '`line` must be the text of the cursor line up to the cursor column (source.lines[ln - 1][:col])',
-              nontrivial=False)
-    regex_sites = []
-    for r in rets:
-        key = 'return `%s`' % unparse(r.value)[:60]
-        if not (isinstance(r.value, ast.Tuple) and len(r.value.elts) == 2):
-            res.check('C12-R2', key + ' shape', False, ASSIST, r.lineno, 'assist must return a (prefix, proposals) pair')
-            continue
-        pre, props = r.value.elts
-        full = ex.expand(pre)
-        txt = unparse(full)
-        tree_derived = [f for f in TREE_FUNCS if f + '(' in txt] + (['.tree'] if '.tree' in txt else [])
-        roots = names_in(full)
-        ok = not tree_derived and roots <= TEXT_ROOTS | {'package', 'sep', 'prefix', 'iname'}
-        res.check('C12-R1', key + ' prefix provenance', ok, ASSIST, r.lineno,
-                  'the returned prefix `%s` derives from the cursor-marked syntax tree (%s), which contains the '
-                  'characters to the right of the cursor; it must derive only from the text left of the cursor'
-                  % (unparse(pre), ', '.join(tree_derived) or 'unknown roots %s' % sorted(roots - TEXT_ROOTS)),
-                  sample='%s <- %s' % (unparse(pre), txt[:80]))
-        for c in ast.walk(full):
-            if isinstance(c, ast.Call) and unparse(c.func).startswith('re.') and c.args \
-                    and isinstance(c.args[0], ast.Constant) and isinstance(c.args[0].value, str):
-                regex_sites.append((r, full, c))
-        # ---- R2 ----
-        ok2 = False
-        why = ''
-        if isinstance(props, ast.Call) and unparse(props.func) == 'sorted' and props.args:
-            arg = ex.expand(props.args[0])
-            ok2, why = unique_iter(arg)
-        if not ok2 and isinstance(props, ast.Name):
-            props = ex.expand(props)
-        if ok2:
-            pass
-        elif isinstance(props, ast.Call) and unparse(props.func) == 'list_packages':
-            lp = repo.module_func(ASSIST, 'list_packages')
-            last = lp.body[-1]
-            ok2 = isinstance(last, ast.Return) and isinstance(last.value, ast.Call) and unparse(last.value.func) == 'sorted'
-            why = 'list_packages returns sorted(...) of a set'
-        res.check('C12-R2', key + ' proposals', ok2, ASSIST, r.lineno,
-                  'the proposals `%s` must be sorted(X) with X a container of unique keys (%s)' % (unparse(props)[:60], why),
-                  sample='%s: %s' % (unparse(props)[:50], why))
-    # ---- R1b delimiter completeness ---------------------------------------------------------------
-    seen = set()
-    for r, full, c in regex_sites:
-        fn = unparse(c.func)
-        pat = c.args[0].value
-        if (fn, pat) in seen:
-            continue
-        seen.add((fn, pat))
-        # recognise the extraction shape around the regex call
-        shape = extraction_shape(full, c)
-        if shape is None:
-            raise AnalysisError('assist: unrecognised prefix extraction `%s`' % unparse(full)[:80])
-        bad = []
-        for code in range(32, 127):
-            ch = chr(code)
-            probe = 'ab' + ch + 'cd_1'
-            want = probe if ch in IDENT else 'cd_1'
-            try:
-                got = shape(pat, probe)
-            except Exception as e:      # pattern does not match at all
-                got = 'ERROR %s' % e
-            if got != want:
-                bad.append(ch)
-        for ch in '\t':
-            if shape(pat, 'ab' + ch + 'cd_1') != 'cd_1':
-                bad.append(ch)
-        # cursor directly after a boundary or at the start of the line: the prefix is empty
-        for probe in ('', 'foo(', 'x = ', 'a.'):
-            try:
-                got = shape(pat, probe)
-            except Exception as e:
-                got = 'ERROR %s' % type(e).__name__
-            if got != '':
-                bad.append('empty prefix after %r -> %s' % (probe, got))
-        res.check('C12-R1', 'prefix regex %r boundaries' % pat, not bad, ASSIST, c.lineno,
-                  'the prefix pattern %r (%s) does not cut the identifier run at %s: for `x=fo|` it returns `x=fo`; the '
-                  'boundary set must be the complement of [A-Za-z0-9_]' % (pat, fn, ' '.join(repr(b) for b in bad[:12])),
-                  sample='%s %r: boundaries complete over ASCII' % (fn, pat))
-    res.count('regex_sites', len(seen), floor=1)
-    # ---- R2 attr_list implementations --------------------------------------------------------------
+    from .. import api_model
+    recs = api_model.assist_model(repo)
+    n = api_model.apply(res, recs, {'prefix': 'C12-R1', 'shape': 'C12-R2', 'sorted': 'C12-R2', 'unique': 'C12-R2',
+                                    'pkg': 'C12-R2'}, ASSIST, assist.lineno)
+    res.count('assist_scenarios', n, floor=120)
+    # a sink that removes duplicates makes the proposals duplicate-free whatever attr_list returns; otherwise every
+    # attr_list implementation must return unique keys
+    sink = [r for r in recs if r[0] == 'unique-sink']
+    sink_dedups = bool(sink) and all(r[2] for r in sink)
     facts = get_facts(repo)
     nal = 0
     for fi in facts.funcs.values():
@@ -133,35 +55,18 @@ def run(repo, res):
             continue
         nal += 1
         for r in [x for x in ast.walk(fi.node) if isinstance(x, ast.Return) and x.value is not None]:
-            ok, why = unique_iter(Expander(fi.node).expand(r.value))
-            res.check('C12-R2', '%s returns unique keys' % fi.qual, ok, fi.rel, r.lineno,
-                      '%s returns `%s`, which may contain duplicates (%s)' % (fi.qual, unparse(r.value), why),
-                      nontrivial=False)
+            ok, why = (True, 'assist removes duplicates at the sink') if sink_dedups else unique_iter(Expander(fi.node).expand(r.value))
+            res.check('C12-R2', '%s cannot introduce duplicates' % fi.qual, ok, fi.rel, r.lineno,
+                      'assist does not remove duplicates and %s returns `%s`, which may contain duplicates (%s)'
+                      % (fi.qual, unparse(r.value), why), nontrivial=False)
     res.count('attr_list_impls', nal, floor=4)
     from .. import resolve_model as M
     M.check_merged_dict(repo, res, 'C12-R2')
     # ---- R3 the marker cannot reach the proposals -----------------------------------------------------
+    clean = [r for r in recs if r[0] == 'clean']
+    sink_clean = bool(clean) and all(r[2] for r in clean)
     src_cls = repo.klass('supp/util.py', 'Source')
     spliced = 'SOURCE_MARK' in unparse(src_cls)
-    sink_clean = True
-    for r in rets:
-        if isinstance(r.value, ast.Tuple) and len(r.value.elts) == 2:
-            raw = unparse(r.value.elts[1])
-            t = unparse(ex.expand(r.value.elts[1]))
-            # proposals derived from the cursor-marked scope: names_at of a marked read, attr_list of a value
-            # evaluated in the marked tree (module tables loaded from disk carry no marker)
-            full2 = ex.expand(r.value.elts[1])
-            from_marked = False
-            for c in ast.walk(full2):
-                if isinstance(c, ast.Call) and isinstance(c.func, ast.Attribute):
-                    if c.func.attr == 'names_at':
-                        from_marked = True
-                    if c.func.attr == 'attr_list' and 'get_nmodule(' not in unparse(c.func.value):
-                        from_marked = True
-            if 'sorted(names' in raw:
-                from_marked = True
-            if from_marked and not any(w in raw + t for w in ('unmark(', 'marked(', 'SOURCE_MARK')):
-                sink_clean = False
     source_clean = True
     for rel in ('supp/nast.py', 'supp/scope.py'):
         for c in ast.walk(repo.tree(rel)):
@@ -169,11 +74,12 @@ def run(repo, res):
                 a0 = unparse(c.args[0])
                 if any(a0.endswith(sfx) for sfx in ('.id', '.arg', '.name', 'name', '.attr')) and 'unmark(' not in a0:
                     source_clean = False
-    ok = (not spliced) or sink_clean or source_clean
+    ok = sink_clean or source_clean or not spliced
+    bad = [r for r in clean if not r[2]]
     res.check('C12-R3', 'cursor marker cannot reach proposals', ok, ASSIST, assist.lineno,
               'the cursor marker is spliced into the analysed text, binders under the cursor are created with the marked '
-              'identifier, and assist returns the names unfiltered: `self.ba|r = 1` proposes `ba__supp_mark__r`. Un-mark or '
-              'filter at the sink, or un-mark every identifier where names are created',
+              'identifier, and assist returns the names unfiltered (%s): `self.ba|r = 1` proposes `ba__supp_mark__r`. Un-mark or '
+              'filter at the sink, or un-mark every identifier where names are created' % (bad[0][3] if bad else ''),
               sample='marker spliced=%s, sink sanitised=%s, sources sanitised=%s' % (spliced, sink_clean, source_clean))
     # ---- R4 the cursor node is found wherever it is --------------------------------------------------------------
     # (a necessary condition of cursor transparency: the mark finders must reach every position of the tree)
